@@ -57,8 +57,9 @@ class Opaque:
 class Frag:
     def __init__(self, source: Optional[str] = None,
                  on_call: Optional[Callable] = None, on_attr: Optional[Callable] = None,
-                 on_subscript: Optional[Callable] = None, on_store: Optional[Callable] = None):
+                 on_subscript: Optional[Callable] = None, on_store: Optional[Callable] = None, specialise: bool = False):
         self.source = source
+        self.specialise = specialise      # constant-fold integer index arithmetic, decide constant tests, unroll constant loops
         self.env: Dict[str, Any] = {}
         self.depth = 0
         self.loop_syms: List[str] = []
@@ -82,6 +83,36 @@ class Frag:
     @staticmethod
     def idx_str(r: Rat) -> str:
         return repr(r).replace(" ", "")
+
+    @staticmethod
+    def const_of(r) -> Optional[F]:
+        if isinstance(r, Rat) and not r.symbols() and r.d == Poly.const(1):
+            return r.n.t.get((), F(0))
+        if isinstance(r, Rat) and not r.symbols():
+            dn = r.d.t.get((), F(0))
+            return r.n.t.get((), F(0)) / dn if dn != 0 else None
+        return None
+
+    def const_test(self, t: ast.AST) -> Optional[bool]:
+        """value of a test whose operands fold to constants (None = not decidable)"""
+        try:
+            if isinstance(t, ast.Compare) and len(t.ops) == 1:
+                a, b = self.const_of(self.num(self.ev(t.left))), self.const_of(self.num(self.ev(t.comparators[0])))
+                if a is None or b is None:
+                    return None
+                op = t.ops[0]
+                return {ast.Lt: a < b, ast.LtE: a <= b, ast.Gt: a > b, ast.GtE: a >= b, ast.Eq: a == b, ast.NotEq: a != b}.get(type(op))
+            if isinstance(t, ast.UnaryOp) and isinstance(t.op, ast.Not):
+                v = self.const_test(t.operand)
+                return None if v is None else (not v)
+            if isinstance(t, ast.BoolOp):
+                vs = [self.const_test(x) for x in t.values]
+                if any(v is None for v in vs):
+                    return None
+                return all(vs) if isinstance(t.op, ast.And) else any(vs)
+        except Uninterpretable:
+            return None
+        return None
 
     def num(self, v, what="value") -> Rat:
         """coerce to a scalar normal form"""
@@ -158,6 +189,10 @@ class Frag:
                     return a / b
                 except ZeroDivisionError:
                     raise Uninterpretable("division by zero in %s" % ast.unparse(e))
+            if isinstance(e.op, (ast.FloorDiv, ast.Mod)):
+                ka, kb = self.const_of(a), self.const_of(b)
+                if ka is not None and kb is not None and kb != 0 and ka.denominator == 1 and kb.denominator == 1:
+                    return C(int(ka) // int(kb)) if isinstance(e.op, ast.FloorDiv) else C(int(ka) % int(kb))
             raise Uninterpretable("operator %s in %s" % (type(e.op).__name__, ast.unparse(e)))
         if isinstance(e, ast.Subscript):
             if self.on_subscript is not None:
@@ -307,6 +342,10 @@ class Frag:
         return a is b
 
     def run_if(self, s: ast.If):
+        if self.specialise:
+            v = self.const_test(s.test)
+            if v is not None:
+                return self.run(s.body if v else s.orelse)
         a, b = self.fork(), self.fork()
         ra = a.run(s.body)
         rb = b.run(s.orelse)
@@ -335,6 +374,15 @@ class Frag:
         if s.orelse or not isinstance(s.target, ast.Name):
             raise Uninterpretable("for-else / non-name loop target")
         lo, hi, step = self.range_args(s.iter)
+        if self.specialise:
+            kl, kh, ks = self.const_of(lo), self.const_of(hi), self.const_of(step)
+            if None not in (kl, kh, ks) and all(k.denominator == 1 for k in (kl, kh, ks)) and ks != 0 and len(range(int(kl), int(kh), int(ks))) <= 256:
+                for k in range(int(kl), int(kh), int(ks)):
+                    self.env[s.target.id] = C(k)
+                    r = self.run(s.body)
+                    if r is not None:
+                        raise Uninterpretable("return inside an interpreted loop")
+                return
         sym = "$%d" % len(self.loop_syms)
         inner = self.fork()
         inner.loop_syms = self.loop_syms + [sym]
